@@ -36,7 +36,7 @@ type xt struct {
 }
 
 // names of let variables (node kinds 'l' and 'x' carry the index in op)
-var letNames = []string{"x", "y", "z"}
+var letNames = []string{"x", "y", "z", "u", "v", "w"}
 
 // randLets builds a chain of 2..3 nested lets: every value and the body are small random trees over the
 // atoms and the variables declared so far; a variable may stay unused, a value may or may not be constant.
@@ -71,7 +71,25 @@ func randLets(r interface {
 	}
 	body := small(depth)
 	for v := depth - 1; v >= 0; v-- {
-		body = &xt{k: 'l', op: v, c: small(v), l: body}
+		val := small(v)
+		if r.IntN(4) == 0 {
+			// the value is an if whose branch declares variables of its own (u, v): let inside a let value
+			inner := small(v)
+			uses := &xt{k: 'x', op: 3}
+			if r.IntN(2) == 0 {
+				inner2 := &xt{k: 'b', op: r.IntN(int(nb)), l: &xt{k: 'x', op: 4}, r: &xt{k: 'x', op: 3}}
+				uses = &xt{k: 'l', op: 4, c: small(v), l: inner2}
+			} else if r.IntN(2) == 0 {
+				uses = &xt{k: 'b', op: r.IntN(int(nb)), l: uses, r: small(v)}
+			}
+			branch := &xt{k: 'l', op: 3, c: inner, l: uses}
+			if r.IntN(2) == 0 {
+				val = &xt{k: 'i', c: small(v), l: branch, r: small(v)}
+			} else {
+				val = &xt{k: 'i', c: small(v), l: small(v), r: branch}
+			}
+		}
+		body = &xt{k: 'l', op: v, c: val, l: body}
 	}
 	return body
 }
@@ -157,7 +175,7 @@ func unrank(t []int64, n int, k int64, atoms, nb, nu int64) *xt {
 	panic("unrank out of range")
 }
 
-func boolEval(t *xt, env [6]bool) bool {
+func boolEval(t *xt, env [9]bool) bool {
 	switch t.k {
 	case 'a':
 		switch t.op {
@@ -325,7 +343,7 @@ func newFloatGen(flags int, opt bool) *floatGen {
 
 // floatEval evaluates the tree; *regroupOK is cleared when some chain of a
 // commutative operator has operands for which re-association is not exact.
-func floatEval(t *xt, env [5]float64, regroupOK *bool) float64 {
+func floatEval(t *xt, env [8]float64, regroupOK *bool) float64 {
 	switch t.k {
 	case 'a':
 		if t.op < 2 {
@@ -374,7 +392,7 @@ func floatEval(t *xt, env [5]float64, regroupOK *bool) float64 {
 	panic("bad node")
 }
 
-func chainOperands(t *xt, env [5]float64, ok *bool) []float64 {
+func chainOperands(t *xt, env [8]float64, ok *bool) []float64 {
 	var out []float64
 	for t.k == 'b' && t.l.k == 'b' && t.l.op == t.op {
 		out = append(out, floatEval(t.r, env, ok))
@@ -774,7 +792,7 @@ func runC19Seg(c *wk.Case, p *c19plan, seg string, blk int64) {
 					return
 				}
 				for as := 0; as < 8; as++ {
-					env := [6]bool{as&1 != 0, as&2 != 0, as&4 != 0}
+					env := [9]bool{as&1 != 0, as&2 != 0, as&4 != 0}
 					want := boolEval(t, env)
 					got, err := f.Eval(env[0], env[1], env[2])
 					if err != nil || got != want {
@@ -811,7 +829,7 @@ func runC19Seg(c *wk.Case, p *c19plan, seg string, blk int64) {
 				for _, av := range floatGrid {
 					for _, bv := range floatGrid {
 						ok := true
-						want := floatEval(t, [5]float64{av, bv}, &ok)
+						want := floatEval(t, [8]float64{av, bv}, &ok)
 						got, err := f.Eval(av, bv)
 						same := got == want || (math.IsNaN(got) && math.IsNaN(want))
 						if !same && g.opt && !ok && err == nil {
